@@ -534,7 +534,7 @@ theorem go_sel_pod (p : Pod) (nso : Option NsObj) (podSel nsSel : Option Selecto
     (h : NPPeer.sel podSel nsSel ≠ .sel none none) :
     go np (.pod p nso) (.sel podSel nsSel :: rest) =
       if !(match nsSel with
-          | none => np.ns == p.ns
+          | none => nsMatchNil np p
           | some s => selectorsMatch s p.reprNsSel ((nso.map (·.labels)).getD []) p.isRepresentative)
       then go np (.pod p nso) rest
       else if (match podSel with
@@ -583,7 +583,7 @@ theorem NetPol.ruleSelectsPeer_go_pod (np : NetPol) (peers : List NPPeer) (p : P
       rw [go_sel_pod np rest p (some ns) podSel nsSel hrp, ih', hrep, Spec.npPeerMatches_sel_pod]
       generalize (rest.any fun rp => Spec.npPeerMatches np rp (.pod p ns.labels)) = B
       cases podSel <;> cases nsSel <;>
-        simp only [NetPol.selectorsMatch_real, Option.map_some, Option.getD_some]
+        simp only [NetPol.selectorsMatch_real, NetPol.nsMatchNil_real np p hrep, Option.map_some, Option.getD_some]
       · cases (np.ns == p.ns) <;> simp
       · rename_i s; cases s.matches ns.labels <;> simp
       · rename_i ps; cases (np.ns == p.ns) <;> cases ps.matches p.labels <;> simp
